@@ -94,3 +94,52 @@ Proof.
   split; [exact fmt_ok_F32|]. split; [exact fmt_ok_F64|]. split; [lia|]. split; [lia|].
   split; [apply wfb_wf; vm_compute; reflexivity | vm_compute; split; [discriminate | reflexivity]].
 Qed.
+
+(* ---- the float casts REGENERATED from /repo/src on every run (Generated/FloatGen.v, tools/rs2v_float.py) equal the model ----
+   The eight `CastFrom` impls between $BUint<N> / $BInt<N> and f32 / f64 of src/buint/cast.rs and src/bint/cast.rs, translated
+   together with everything they call in src/cast/float/*.rs, return exactly what the four model functions the theorems above are
+   about return (`Panic` of the model = `Panicked` of the generated code), for every digit width, digit count, well-formed
+   operand / bit pattern and both build modes. *)
+From Bnum.Model Require Import Imp.
+From Bnum.Generated Require Import FloatGen.
+From Bnum.Proofs Require Import FloatGenTie.
+
+Theorem C14_float_rs_matches_model : forall dbg w n, 0 < w ->
+  (forall a, wf w n a ->
+     FloatGen.U_to_f32 dbg w (Z.of_nat n) a = of_outcome (U_to_float dbg F32 w a) /\
+     FloatGen.U_to_f64 dbg w (Z.of_nat n) a = of_outcome (U_to_float dbg F64 w a)) /\
+  (forall a, (0 < n)%nat -> wf w n a ->
+     FloatGen.I_to_f32 dbg w (Z.of_nat n) a = of_outcome (I_to_float dbg F32 w a) /\
+     FloatGen.I_to_f64 dbg w (Z.of_nat n) a = of_outcome (I_to_float dbg F64 w a)) /\
+  (forall x, 0 <= x < 2 ^ 32 ->
+     FloatGen.U_from_f32 dbg w (Z.of_nat n) x = of_outcome (U_from_float dbg F32 w n x) /\
+     FloatGen.I_from_f32 dbg w (Z.of_nat n) x = of_outcome (I_from_float dbg F32 w n x)) /\
+  (forall x, 0 <= x < 2 ^ 64 ->
+     FloatGen.U_from_f64 dbg w (Z.of_nat n) x = of_outcome (U_from_float dbg F64 w n x) /\
+     FloatGen.I_from_f64 dbg w (Z.of_nat n) x = of_outcome (I_from_float dbg F64 w n x)).
+Proof. exact floatgen_C14_match_model. Qed.
+Print Assumptions C14_float_rs_matches_model.
+
+(* the generic functions behind them (translated once, with the float format F as a parameter), for every format with
+   fmt_ok F and a mantissa word of at least 32 bits: the `ConvertFloatParts` decode / encode helpers, the two casts,
+   `Bits for u32 / u64` *)
+Theorem C14_float_generic_rs_matches_model : forall F, fmt_ok F -> 32 <= fbits F ->
+  (forall x, 0 <= x < 2 ^ fbits F ->
+     FloatGen.into_raw_parts F x = Done (into_raw_parts F x) /\
+     FloatGen.into_biased_parts F x = Done (into_biased_parts F x) /\
+     FloatGen.into_signed_biased_parts F x = Done (into_signed_biased_parts F x) /\
+     FloatGen.into_signed_parts F x = Done (into_signed_parts F x) /\
+     FloatGen.into_normalised_signed_parts F x = Done (into_normalised_signed_parts F x) /\
+     FloatGen.mant_bits F x = Done (bitlen x) /\
+     (forall i, 0 <= i < fbits F -> FloatGen.mant_bit F x i = Done (m_bit (fbits F) x i)) /\
+     (forall dbg w n, 0 < w ->
+        FloatGen.cast_uint_from_float dbg F w (Z.of_nat n) x = of_outcome (cast_uint_from_float dbg F w n x))) /\
+  (forall dbg sign e m,
+     (0 <= e < 2 ^ 32 -> FloatGen.from_raw_parts dbg F sign e m = of_outcome (from_raw_parts dbg F sign e m)) /\
+     (0 <= e < 2 ^ 32 -> FloatGen.from_biased_parts dbg F sign e m = of_outcome (from_biased_parts dbg F sign e m)) /\
+     FloatGen.from_signed_biased_parts dbg F sign e m = of_outcome (from_signed_biased_parts dbg F sign e m) /\
+     FloatGen.from_signed_parts dbg F sign e m = of_outcome (from_signed_parts dbg F sign e m)) /\
+  (forall dbg w n a, 0 < w -> wf w n a ->
+     FloatGen.cast_float_from_uint dbg F w (Z.of_nat n) a = of_outcome (cast_float_from_uint dbg F w a)).
+Proof. exact floatgen_C14_generic_match_model. Qed.
+Print Assumptions C14_float_generic_rs_matches_model.
